@@ -747,12 +747,201 @@ def gen_state(repo):
     return '\n'.join(L) + '\n'
 
 
+# ----------------------------------------------------------------------------- T3/T4/T5: CLI stages, schema, clone/shared state
+
+def struct_fields(src, name):
+    """[(field, type, [serde attrs])] of `struct name { … }` (None if not found / tuple struct)"""
+    m = re.search(r'((?:#\[[^\]]*\]\s*)*)pub\s+struct\s+' + name + r'\b[^{;(]*\{', src)
+    if not m:
+        m2 = re.search(r'((?:#\[[^\]]*\]\s*)*)pub\s+struct\s+' + name + r'\s*\(([^)]*)\)\s*;', src)
+        if m2:
+            return m2.group(1), [('0', m2.group(2).strip(), [])]
+        return None, None
+    j = match_brace(src, m.end() - 1)
+    body = src[m.end():j]
+    fields = []
+    pending = []
+    for part in re.finditer(r'(#\[[^\]]*\])|(?:pub(?:\([^)]*\))?\s+)?([a-z_]\w*)\s*:\s*([^,]+?)\s*(?:,|$)', body, re.S):
+        if part.group(1):
+            if 'serde' in part.group(1):
+                pending.append(re.sub(r'\s+', '', part.group(1)))
+        else:
+            fields.append((part.group(2), re.sub(r'\s+', ' ', part.group(3).strip()), pending))
+            pending = []
+    return m.group(1), fields
+
+
+def gen_cli(repo):
+    notes = []
+    main = read(repo, 'src/main.rs')
+    L = ['/- GENERATED by tools/pvtx.py from src/main.rs, src/optimisation.rs, struct definitions and Clone impls — do not edit. -/',
+         'import Model.CliTypes', 'namespace PV.Generated', '']
+
+    # ---- T3: the three stages of analyse_state
+    body = fn_body(main, 'analyse_state') or ''
+    stages = []
+    for m in re.finditer(r'optimiser\s*\.clone\(\)((?:\s*\.\s*\w+\([^()]*\))*?)\s*\.\s*build\(\)\s*\.\s*optimise_state\(', body):
+        calls = re.findall(r'\.\s*(\w+)\(([^()]*)\)', m.group(1))
+        st = []
+        for (fn, arg) in calls:
+            arg = arg.strip()
+            try:
+                if fn == 'steps' and re.fullmatch(r'\d+', arg):
+                    st.append('.steps %s' % arg)
+                elif fn == 'inner_steps' and re.fullmatch(r'\d+', arg):
+                    st.append('.innerSteps %s' % arg)
+                elif fn == 'kt_start':
+                    st.append('.ktStart %s' % to_bexpr(arg))
+                elif fn == 'kt_finish':
+                    st.append('.ktFinish %s' % to_bexpr(arg))
+                elif fn == 'max_step_size':
+                    st.append('.maxStep %s' % to_bexpr(arg))
+                elif fn == 'seed' and arg == 'index':
+                    st.append('.seedIndex')
+                elif fn == 'convergence' and arg == 'None':
+                    st.append('.convergence none')
+                elif fn == 'kt_ratio' and arg == 'None':
+                    st.append('.ktRatio none')
+                elif fn == 'kt_ratio' and arg.startswith('Some('):
+                    st.append('.ktRatio (some %s)' % to_bexpr(arg[5:-1]))
+                else:
+                    notes.append('analyse_state: unrecognised builder call .%s(%s)' % (fn, arg))
+            except Unrecognised as e:
+                notes.append('analyse_state: %s' % e)
+        stages.append(st)
+    if len(stages) != 3:
+        notes.append('analyse_state: %d optimisation stages recognised, expected 3' % len(stages))
+    if not re.search(r'\(0\s*\.\.\s*start_configs\)\s*\.into_par_iter\(\)', body):
+        notes.append('analyse_state: replicas are not (0..start_configs).into_par_iter()')
+    red = re.search(r'\)\s*\.\s*(max|min|max_by|min_by|max_by_key|min_by_key|reduce\w*|find\w*|last|first)\s*\(\s*\)\s*\.ok_or_else', body)
+    reduction = red.group(1) if red else None
+    if reduction is None:
+        notes.append('analyse_state: reduction over replicas not recognised')
+        reduction = '?'
+    if not re.search(r'state\.clone\(\)', body):
+        notes.append('analyse_state: replicas do not start from state.clone()')
+    # written state = logged state
+    if not (re.search(r'serde_json::to_string\(&final_state\)', body) and re.search(r'final_state\s*\.score\(\)', body)
+            and re.search(r'svg::save\([^,]+,\s*&final_state\.as_svg\(\)\)', body)):
+        notes.append('analyse_state: logged / serialised / drawn state is not final_state')
+    L.append('/-- the optimiser overrides of the three stages of `analyse_state`, in order -/')
+    L.append('def cliStages : List (List Ovr) := [' + ', '.join('[' + ', '.join(st) + ']' for st in stages) + ']')
+    L.append('/-- the reduction applied to the replicas -/')
+    L.append('def cliReduction : String := ' + lean_str(reduction))
+    L.append('')
+
+    # ---- optimiser defaults (structopt default_value + Default impl)
+    opt = read(repo, 'src/optimisation.rs')
+    defaults = {}
+    for m in re.finditer(r'#\[structopt\(([^\]]*)\)\]\s*(\w+)\s*:', opt):
+        dv = re.search(r'default_value\s*=\s*"([^"]*)"', m.group(1))
+        if dv:
+            defaults[m.group(2)] = dv.group(1)
+    L.append('/-- structopt `default_value`s of the optimiser options -/')
+    L.append('def cliDefaults : List (String × String) := [' + ', '.join('(%s, %s)' % (lean_str(k), lean_str(v)) for k, v in sorted(defaults.items())) + ']')
+    margs = {}
+    for m in re.finditer(r'#\[structopt\(([^\]]*)\)\]\s*(\w+)\s*:', main):
+        dv = re.search(r'default_value\s*=\s*"([^"]*)"', m.group(1))
+        if dv:
+            margs[m.group(2)] = dv.group(1)
+    L.append('def cliArgDefaults : List (String × String) := [' + ', '.join('(%s, %s)' % (lean_str(k), lean_str(v)) for k, v in sorted(margs.items())) + ']')
+    L.append('')
+
+    # ---- T4: serialisation schema (field order, types, serde attributes)
+    files = {
+        'PackedState': 'src/state/packed.rs', 'PotentialState': 'src/state/potential.rs',
+        'Wallpaper': 'src/wallpaper.rs', 'WyckoffSite': 'src/wallpaper.rs', 'Cell2': 'src/cell.rs',
+        'OccupiedSite': 'src/site.rs', 'LineShape': 'src/shape/line_shape.rs',
+        'MolecularShape2': 'src/shape/molecular_shape2.rs', 'LJShape2': 'src/shape/lj_shape.rs',
+        'Line2': 'src/shape/components/line2.rs', 'Atom2': 'src/shape/components/atom2.rs',
+        'LJ2': 'src/shape/components/lj2.rs', 'Transform2': 'src/transform.rs',
+    }
+    rows = []
+    for name, rel in files.items():
+        src = read(repo, rel)
+        attrs, fields = struct_fields(src, name)
+        if fields is None:
+            notes.append('schema: struct %s not found' % name)
+            continue
+        derives = re.findall(r'derive\(([^)]*)\)', attrs or '')
+        dl = [d.strip() for ds in derives for d in ds.split(',')]
+        ser = 'Serialize' in dl
+        de = 'Deserialize' in dl
+        cont_attrs = [re.sub(r'\s+', '', a) for a in re.findall(r'#\[serde[^\]]*\]', attrs or '')]
+        fl = ', '.join('(%s, %s, [%s])' % (lean_str(f), lean_str(t), ', '.join(lean_str(a) for a in at)) for (f, t, at) in fields)
+        rows.append('  (%s, %s, %s, [%s], [%s])' % (lean_str(name), 'true' if ser else 'false', 'true' if de else 'false',
+                                                  ', '.join(lean_str(a) for a in cont_attrs), fl))
+    L.append('/-- (struct, derives Serialize, derives Deserialize, container serde attributes, fields in order with type and serde attributes) -/')
+    L.append('def schema : List (String × Bool × Bool × List String × List (String × String × List String)) := [')
+    L.append(',\n'.join(rows))
+    L.append(']')
+    basis = read(repo, 'src/basis.rs')
+    sv_ser = re.search(r'impl\s+Serialize\s+for\s+SharedValue\s*\{', basis)
+    sv_ok = False
+    if sv_ser:
+        b = basis[sv_ser.end():match_brace(basis, sv_ser.end() - 1)]
+        sv_ok = re.sub(r'\s+', '', b).endswith('{serializer.serialize_f64(self.get_value())}')
+    sv_de = re.search(r'impl<\'de>\s*Deserialize<\'de>\s*for\s+SharedValue\s*\{', basis)
+    sv_de_ok = False
+    if sv_de:
+        b = basis[sv_de.end():match_brace(basis, sv_de.end() - 1)]
+        sv_de_ok = 'deserialize_f64(F64Visitor)' in re.sub(r'\s+', '', b) and '.map(SharedValue::new)' in re.sub(r'\s+', '', b)
+    vis = re.search(r'fn\s+visit_f64<E>\(self,\s*value:\s*f64\)[^{]*\{\s*Ok\(value\)\s*\}', basis)
+    L.append('/-- `SharedValue` (de)serialises as a bare f64 holding its value -/')
+    L.append('def sharedValueIsBareF64 : Bool := ' + ('true' if (sv_ok and sv_de_ok and vis) else 'false'))
+    fam = read(repo, 'src/cell.rs')
+    mf = re.search(r'((?:#\[[^\]]*\]\s*)*)pub\s+enum\s+CrystalFamily\s*\{([^}]*)\}', fam)
+    variants = [v.strip() for v in mf.group(2).split(',') if v.strip()] if mf else []
+    L.append('def familyVariants : List String := [' + ', '.join(lean_str(v) for v in variants) + ']')
+    L.append('')
+
+    # ---- T5: Clone impls allocate fresh cells; shared-state inventory
+    clone_ok = []
+    for name, rel, fields in [('Cell2', 'src/cell.rs', ['length', 'ratio', 'angle']), ('OccupiedSite', 'src/site.rs', ['x', 'y', 'angle'])]:
+        src = read(repo, rel)
+        m = re.search(r'impl\s+Clone\s+for\s+' + name + r'\s*\{', src)
+        ok = False
+        if m:
+            b = re.sub(r'\s+', '', src[m.end():match_brace(src, m.end() - 1)])
+            ok = all(('%s:SharedValue::new(self.%s.get_value())' % (f, f)) in b for f in fields)
+        derive_clone = re.search(r'derive\([^)]*\bClone\b[^)]*\)\]\s*pub\s+struct\s+' + name + r'\b', src) is not None
+        clone_ok.append((name, ok and not derive_clone))
+    L.append('/-- hand-written `Clone` allocates a fresh `SharedValue` for every parameter field -/')
+    L.append('def cloneFresh : List (String × Bool) := [' + ', '.join('(%s, %s)' % (lean_str(n), 'true' if o else 'false') for n, o in clone_ok) + ']')
+    inv = []
+    pats = [r'\bstatic\s+(?:mut\s+)?[A-Z_]+\s*:', r'thread_local!', r'lazy_static!', r'\bRc<', r'\bArc<', r'\bRefCell<', r'\bMutex<', r'\bRwLock<', r'\bAtomic\w+', r'\bOnceCell\b', r'\bunsafe\b']
+    for root, _, fs in os.walk(os.path.join(repo, 'src')):
+        for fn in sorted(fs):
+            if not fn.endswith('.rs'):
+                continue
+            rel = os.path.relpath(os.path.join(root, fn), repo)
+            src = read(repo, rel)
+            for pat in pats:
+                for m in re.finditer(pat, src):
+                    line = src.count('\n', 0, m.start()) + 1
+                    inv.append('%s: %s' % (rel, re.sub(r'\s+', ' ', src[m.start():m.end()])))
+    inv = sorted(inv)
+    L.append('/-- every `static`, `thread_local!`, shared-ownership / interior-mutability type and `unsafe` in non-test code -/')
+    L.append('def sharedStateInventory : List String := [' + ', '.join(lean_str(x) for x in inv) + ']')
+    seedpath = re.sub(r'\s+', '', fn_body(opt, 'build') or '')
+    L.append('/-- with an explicit seed `build` never consults an entropy source -/')
+    L.append('def seedOnly : Bool := ' + ('true' if 'letseed=matchself.seed{None=>Pcg64Mcg::from_entropy().gen(),Some(x)=>x,};' in seedpath else 'false'))
+    rngline = re.sub(r'\s+', '', fn_body(opt, 'optimise_state') or '')
+    L.append('def rngFromSeed : Bool := ' + ('true' if 'letmutrng=Pcg64Mcg::seed_from_u64(self.seed);' in rngline else 'false'))
+    L.append('')
+    L.append('def cliUnrecognised : List String := [' + ', '.join(lean_str(x) for x in notes) + ']')
+    L.append('')
+    L.append('end PV.Generated')
+    return '\n'.join(L) + '\n'
+
+
 # ----------------------------------------------------------------------------- main
 
 GENERATORS = {
     'Tables.lean': gen_tables,
     'Bounds.lean': gen_bounds,
     'State.lean': gen_state,
+    'Cli.lean': gen_cli,
 }
 
 
